@@ -83,3 +83,15 @@ check("C32", "exploration", "differential monitor AuthZEN endpoint vs native API
       "Evaluation vs Check, Evaluations (execute_all / deny_on_first_deny / permit_on_first_permit, including where short-circuiting must stop) vs Checks item by item, SubjectSearch vs ListUsers and ResourceSearch vs StreamedListObjects, over each seeded case's request space with object and typed-wildcard subjects and merged subject properties.",
       "The native API of the same server is the oracle (C01/C05/C06 judge the native API itself).",
       "DESIGN.md §5 C32")
+check("C08", "exploration", "history monitor: request histories on query-cache servers vs reference model and uncached twin, with an observing cache proving hits",
+      "For each seeded case a history (every sampled request 3 times, shuffled differently per server; Check, BatchCheck, ListObjects; contexts, contextual tuples, explicit/implicit model ids, forced strategy modes) runs against an unchanged store on four query-cache servers (v1, v1 breadth 1, weighted-graph, v1+pipeline); every answer must satisfy the C01 acceptance relation and equal the uncached twin; the run is inconclusive unless the counting cache wrapper saw check_response hits.",
+      "Reference semantics harness/ref; the injected cache is the real theine cache behind a counting wrapper.",
+      "DESIGN.md §5 C08")
+check("C10", "exploration", "history monitor: write / cache-warming / HIGHER_CONSISTENCY request histories on all 32 cache-flag combinations x 2 engines, reference model on the state at call time",
+      "On each of the 64 configurations histories alternate default-consistency requests (warming every cache), one Write/Delete, and HIGHER_CONSISTENCY Check / BatchCheck / ListObjects / ListUsers; each higher-consistency answer must equal the reference on the driver-known state at call time. An uncached twin of the same engine separates engine deviations from staleness.",
+      "Writes and requests serialised by the driver; reference semantics harness/ref.",
+      "DESIGN.md §5 C10")
+check("C16", "exploration", "interleaved multi-store history monitor with per-store reference models on all-cache servers (memory v1+pipeline, memory weighted-graph, sqlite); -race",
+      "Groups of 4 stores filled from different seeded cases that share every name are queried store by store (Check, ListObjects, Read, ReadChanges, models, assertions, foreign model ids) before and after writes to single stores and after deleting one store; every answer must match the reference / the driver's record for that store alone, deleted stores must vanish from GetStore and ListStores.",
+      "After a store is written its default-consistency cached answers are not judged (staleness is C10/C11's subject); changelog multiplicity is C14/C15's subject.",
+      "DESIGN.md §5 C16")
